@@ -6,7 +6,10 @@ Inductive stepc := Step (client : N) (o : op) (obs : list (list pkt)).
 
 Inductive case :=
 | CBroker (mqtt : bool) (contract sign : N) (now : Z) (keys : list (bytes * key)) (n : N)
-          (steps : list stepc) (dump : list (list N * N)) (watcher helper : N).
+          (steps : list stepc) (dump : list (list N * N)) (stored : list (bytes * bytes * N)) (watcher helper : N)
+(* a presence watcher that does not read while another connection makes the listed subscriptions
+   in one packet: the channels it was notified about afterwards *)
+| CBurst (subscribed notified : list bytes).
 
 Definition who_eqb (a b : list (N * bytes)) : bool :=
   list_eqb (fun x y => (fst x =? fst y) && bytes_eqb (snd x) (snd y)) a b.
@@ -54,6 +57,8 @@ Definition out_of {I} (b : @broker I) (i : N) : list pkt :=
 Definition clients (n : N) : list N := map N.of_nat (seq 0 (N.to_nat n)).
 
 Definition pair_eqb (a b : list N * N) : bool := list_eqb N.eqb (fst a) (fst b) && (snd a =? snd b).
+Definition cpt_eqb (a b : bytes * bytes * N) : bool :=
+  bytes_eqb (fst (fst a)) (fst (fst b)) && bytes_eqb (snd (fst a)) (snd (fst b)) && (snd a =? snd b).
 Definition subset {A} (eq : A -> A -> bool) (a b : list A) : bool := forallb (fun x => existsb (eq x) b) a.
 
 (* packets of a that have no partner in b *)
@@ -87,7 +92,7 @@ Record st := St { br : @broker trie; sp : @broker held; ok : bool; code : N }.
 
 Definition check (c : case) : N :=
   match c with
-  | CBroker mqtt contract sign now keys n steps dump watcher helper =>
+  | CBroker mqtt contract sign now keys n steps dump stored watcher helper =>
     let e := Env mqtt contract sign now keys 2592000 in
     let s := fold_left (fun s x =>
                           match x with
@@ -111,12 +116,16 @@ Definition check (c : case) : N :=
     (* what the index holds at the end is exactly what the open connections still hold: nothing is
        left behind by connections that ended, nothing of the others was touched *)
     |+| bit (subset pair_eqb mine (b_trie (sp s)) && subset pair_eqb (b_trie (sp s)) mine) 8
+    (* the message store holds exactly the messages the specification stored: channel, payload, ttl *)
+    |+| (let ms := map (fun en => (m_chan (e_msg en), m_payload (e_msg en), m_ttl (e_msg en))) (b_store (sp s)) in
+         bit ((len ms =? len stored) && subset cpt_eqb ms stored && subset cpt_eqb stored ms) 4)
+  | CBurst subscribed notified => bit (list_eqb bytes_eqb subscribed notified) 16
   end.
 
 (* debugging aid: the first step and client where model and implementation differ *)
 Definition first_diff (c : case) : option (N * N * list pkt * list pkt) :=
   match c with
-  | CBroker mqtt contract sign now keys n steps dump watcher helper =>
+  | CBroker mqtt contract sign now keys n steps dump stored watcher helper =>
     let e := Env mqtt contract sign now keys 2592000 in
     (fix go (b : @broker trie) (l : list stepc) (k : N) :=
        match l with
@@ -128,4 +137,5 @@ Definition first_diff (c : case) : option (N * N * list pkt * list pkt) :=
          | None => go b' r (k + 1)
          end
        end) (broker0 trie_ix n) steps 0
+  | CBurst _ _ => None
   end.
